@@ -508,6 +508,12 @@ func coordinatorMain(h *Harness) {
 	}
 	exhaustive := capped == "" && pendingPrefixes == 0
 
+	// replay files of earlier runs of this tier are stale now
+	if old, _ := filepath.Glob(filepath.Join(*flagVerif, "replays", h.Property, tier+"-*.json")); len(old) > 0 {
+		for _, f := range old {
+			os.Remove(f)
+		}
+	}
 	// classify violations against the known-findings file
 	known := LoadKnown(*flagVerif, h.Property)
 	exit := 0
